@@ -38,6 +38,14 @@ fn frames_of(rx: &mio_extras::channel::Receiver<IoLoopMessage>) -> String {
     }
     out.join(";")
 }
+fn raw_of(rx: &mio_extras::channel::Receiver<IoLoopMessage>) -> Vec<Vec<u8>> {
+    let mut out = Vec::new();
+    while let Ok(m) = rx.try_recv() {
+        match m { IoLoopMessage::Send(b) | IoLoopMessage::ConnectionClose(b) => out.push((&b[0..]).to_vec()), _ => out.push(vec![0xEE]) }
+    }
+    out
+}
+fn enc(f: &AMQPFrame) -> Vec<u8> { let mut b = vec![0u8; 1 << 16]; let n = { let (_, n) = amq_protocol::frame::gen_frame((&mut b[..], 0), f).unwrap(); n }; b.truncate(n); b }
 fn body_sig(b: &[u8]) -> String { if b.is_empty() { "-".into() } else { format!("{}..{}", b[0], b[b.len() - 1]) } }
 fn mk_body(n: usize) -> Vec<u8> { (0..n).map(|i| (i % 251) as u8).collect() }
 '''
